@@ -21,7 +21,7 @@ def sh(cmd, cwd=None, timeout=1800):
 
 
 def worktree():
-    wt = "/tmp/wt_seed_%d" % os.getpid()
+    wt = "/tmp/wt_seed"  # fixed path: the Go build cache is keyed by path, a new path per run filled the disk once
     sh("git -C /repo worktree remove --force %s" % wt)
     rc, out = sh("git -C /repo worktree add --detach %s HEAD" % wt)
     assert rc == 0, out
@@ -56,9 +56,18 @@ def do_import(src, slug=None):
         if wtname and d.startswith(wtname):
             copies.append([os.path.relpath(s, os.path.join(src, "demo")) if s.startswith(src) else os.path.basename(s), os.path.relpath(d, wtname)])
     cmd = None
-    for m in re.finditer(r"^\s*(?:cd \S+ && )?(go (?:test|run) [^\n]+)$", run, re.M):
+    for m in re.finditer(r"(go (?:test|run) [^\n`]+)", run):
         cmd = m.group(1).strip()
+        cmd = re.sub(r"\s+(#.*|2>&1.*|>.*)$", "", cmd)
         break
+    if not copies and cmd:
+        # fallback: every *_test.go of the demo goes into the package the demo command names
+        m = re.search(r"\./([\w/\-.]+?)/?(?:\s|$)", cmd)
+        if m:
+            pkg = m.group(1).rstrip("/.")
+            for f in sorted(os.listdir(os.path.join(src, "demo"))):
+                if f.endswith("_test.go"):
+                    copies.append([f, pkg])
     meta["demo_copies"] = copies
     meta["demo_cmd"] = cmd
     meta["imported_from"] = src
